@@ -689,7 +689,9 @@ bool XMLReader::getName(XMLBuffer& toFill, const bool token)
                 // reset the start buffer to the new location of the cursor
                 charIndex_start = fCharIndex;
             }
-            if ((fCharBuf[fCharIndex+1] < 0xDC00) || (fCharBuf[fCharIndex+1] > 0xDFFF))
+            // the refill may have added nothing after a trailing high surrogate
+            if ((fCharIndex+1 >= fCharsAvail) ||
+                (fCharBuf[fCharIndex+1] < 0xDC00) || (fCharBuf[fCharIndex+1] > 0xDFFF))
                 return false;
 
             // Looks ok, so lets eat it
@@ -730,7 +732,8 @@ bool XMLReader::getName(XMLBuffer& toFill, const bool token)
 
                     charIndex_start = fCharIndex;
                 }
-                if ( (fCharBuf[fCharIndex+1] < 0xDC00) ||
+                if ( (fCharIndex+1 >= fCharsAvail) ||
+                        (fCharBuf[fCharIndex+1] < 0xDC00) ||
                         (fCharBuf[fCharIndex+1] > 0xDFFF)  )
                     break;
                 fCharIndex += 2;
@@ -781,7 +784,9 @@ bool XMLReader::getNCName(XMLBuffer& toFill)
             // reset the start buffer to the new location of the cursor
             charIndex_start = fCharIndex;
         }
-        if ((fCharBuf[fCharIndex+1] < 0xDC00) || (fCharBuf[fCharIndex+1] > 0xDFFF))
+        // the refill may have added nothing after a trailing high surrogate
+        if ((fCharIndex+1 >= fCharsAvail) ||
+            (fCharBuf[fCharIndex+1] < 0xDC00) || (fCharBuf[fCharIndex+1] > 0xDFFF))
             return false;
 
         // Looks ok, so lets eat it
@@ -832,7 +837,8 @@ bool XMLReader::getNCName(XMLBuffer& toFill)
 
                     charIndex_start = fCharIndex;
                 }
-                if ( (fCharBuf[fCharIndex+1] < 0xDC00) ||
+                if ( (fCharIndex+1 >= fCharsAvail) ||
+                    (fCharBuf[fCharIndex+1] < 0xDC00) ||
                     (fCharBuf[fCharIndex+1] > 0xDFFF)  )
                     break;
                 fCharIndex += 2;
